@@ -188,3 +188,23 @@ def c06(seed, tier, broken):
         if w2:
             found.append(w2)
     return dict(found=found, evaluations=ev, outcomes=outcomes)
+
+
+def c16(seed, tier, broken):
+    from search import optimizer as O
+
+    w, ev, worst = O.search_numjac(seed, _n(tier, broken, 40, 1500))
+    return dict(found=[w] if w else [], evaluations=ev, worst_deviation_over_tolerance=worst)
+
+
+def c15(seed, tier, broken):
+    from harness import purity as P
+
+    big = tier == "thorough" or broken
+    r = P.run(seed + 7919, 400 if big else 30, 50 if big else 40)
+    found = []
+    for d in r["disagreements"][:1]:
+        d = dict(d)
+        d["match"] = "purity:" + d["what"]
+        found.append(d)
+    return dict(found=found, evaluations=r["cases"])
